@@ -16,6 +16,8 @@
 #include <initializer_list>
 #include <iterator>
 #include <memory>
+#include <stdexcept>
+#include <cstdio>
 #include <algorithm>
 
 #include "xclosure.hpp"
@@ -647,14 +649,30 @@ namespace xtl
     template <class B>
     inline auto xdynamic_bitset_base<B>::at(size_type i) -> reference
     {
-        // TODO add real check, remove m_buffer.at ...
+        if (i >= m_size)
+        {
+#if defined(XTL_NO_EXCEPTIONS)
+            std::fprintf(stderr, "xdynamic_bitset::at: index out of range\n");
+            std::terminate();
+#else
+            throw std::out_of_range("xdynamic_bitset::at: index out of range");
+#endif
+        }
         return reference(m_buffer.at(block_index(i)), bit_index(i));
     }
 
     template <class B>
     inline auto xdynamic_bitset_base<B>::at(size_type i) const -> const_reference
     {
-        // TODO add real check, remove m_buffer.at ...
+        if (i >= m_size)
+        {
+#if defined(XTL_NO_EXCEPTIONS)
+            std::fprintf(stderr, "xdynamic_bitset::at: index out of range\n");
+            std::terminate();
+#else
+            throw std::out_of_range("xdynamic_bitset::at: index out of range");
+#endif
+        }
         return const_reference(m_buffer.at(block_index(i)), bit_index(i));
     }
 
